@@ -5,7 +5,7 @@
 //! interpreter's `[f32; 4]` item (public fields in declaration order, then
 //! alpha), so the interpreter is compiled once instead of once per type.
 
-use super::{run_sched, End, Form, Item, Obs, RangeSpec, SnapAction, Step, B};
+use super::{run_sched, Form, Item, Obs, RangeSpec, SnapAction, B};
 use core::marker::PhantomData;
 use core::ops::Bound;
 use palette::Alpha;
